@@ -100,6 +100,7 @@ L_ROOTS = ["right", "wrong", "malformed-hex", "none", "right-compressed", "malfo
            "empty", "device-key", "right-uppercase"]
 Q_L_ROOTS = L_ROOTS[:4]
 T_L_ROOTS = L_ROOTS[:6]
+T_L_CHAINS = L_CHAINS[:7]        # the high-s variants: star sample and ordered pairs
 S_ROOTS = ["right", "wrong", "garbage-pem", "none", "ca-as-root", "empty-file", "url",
            "right-key-not-selfsigned", "right-other-hierarchy"]
 Q_S_ROOTS = S_ROOTS[:4]
@@ -192,7 +193,7 @@ class C08(Check):
         self.m_plat = ({"ledger": list(PLATFORMS), "sgx": list(PLATFORMS)} if t else Q_PLATFORMS)
         self.m_lt = T_L_TARGETS if t else Q_L_TARGETS
         self.m_st = S_TARGETS if t else Q_S_TARGETS
-        self.m_lc = L_CHAINS if t else Q_L_CHAINS
+        self.m_lc = T_L_CHAINS if t else Q_L_CHAINS
         self.m_sc = S_CHAINS if t else Q_S_CHAINS
         self.m_lroots = T_L_ROOTS if t else Q_L_ROOTS
         self.m_sroots = S_ROOTS if t else Q_S_ROOTS
@@ -211,6 +212,8 @@ class C08(Check):
         for ch in L_CHAINS:
             cert = self.lg.certificate(ch, "both", self.lg.ui_msg(),
                                        self.lg.signer_msg("current", L.POWHSM_HEADER))
+            if ch.endswith("-high-s"):
+                continue     # the reference walk (ecdsa) accepts N - s; libsecp256k1 must not
             want_ui = ch not in ("device-link", "attestation-link", "ui-link", "ui-untweaked")
             want_sg = ch not in ("device-link", "attestation-link", "signer-link",
                                  "signer-foreign-tweak")
@@ -416,7 +419,7 @@ class C08(Check):
 
     def pair_values(self, plat, dim):
         if dim == "chain":
-            return list(self.m_lc if plat == "ledger" else self.m_sc)
+            return list(L_CHAINS if plat == "ledger" else self.m_sc)
         if dim == "pubkeys":
             vals = list(self.m_lpk if plat == "ledger" else self.m_spk)
             return vals + [x for x in ("no-file",) if x not in vals]
@@ -558,7 +561,7 @@ class C08(Check):
         """genuine + every single departure from it, through adm_*.main()"""
         base = self.base_variant(plat)
         if plat == "ledger":
-            alts = {"chain": self.m_lc[1:], "targets": self.m_lt[1:], "ui": self.m_ui[1:],
+            alts = {"chain": L_CHAINS[1:], "targets": self.m_lt[1:], "ui": self.m_ui[1:],
                     "pubkeys": self.m_lpk[1:], "root": self.m_lroots[1:]}
             if self.thorough:
                 alts = {"chain": L_CHAINS[1:], "targets": L_TARGETS[1:], "ui": list(UI_VARIANTS)[1:],
@@ -676,7 +679,8 @@ class C08(Check):
         ch, tg = v["chain"], v["targets"]
         if tg in ("no-ui", "ui-untargeted"):
             fails.append("ui-target-missing")
-        elif not root_right or ch in ("device-link", "attestation-link", "ui-link", "ui-untweaked"):
+        elif not root_right or ch in ("device-link", "attestation-link", "ui-link", "ui-untweaked",
+                                      "device-high-s", "attestation-high-s", "ui-high-s"):
             fails.append("ui-chain")
         if ui_class == "foreign":
             fails.append("ui-header")
@@ -689,7 +693,8 @@ class C08(Check):
         if tg in ("no-signer", "signer-untargeted"):
             fails.append("signer-target-missing")
         elif not root_right or ch in ("device-link", "attestation-link", "signer-link",
-                                      "signer-foreign-tweak"):
+                                      "signer-foreign-tweak", "device-high-s",
+                                      "attestation-high-s", "signer-high-s"):
             fails.append("signer-chain")
         fmt, hname, lname, plat = v["signer"]
         if s_class == "foreign":
